@@ -29,7 +29,7 @@ IOCases(z) ==
 -----------------------------------------------------------------------------
 (* RN: programs under injective renamings into names of the three kinds, every mention in another letter case (C15) *)
 AbstractNames == <<"fun", "p", "x", "r", "k", "loc", "g", "h", "i", "t", "v", "nope", "pair", "a", "b", "q", "dup", "gcd", "mm", "nn",
-                   "ff", "inner", "outer", "helper", "arr", "j", "y", "grow", "d", "c">>
+                   "ff", "inner", "outer", "helper", "arr", "j", "y", "grow", "d", "c", "got">>
 Naming(off) == LET sc == NM!Scheme(AbstractNames, off) IN [n \in {AbstractNames[i] : i \in 1..Len(AbstractNames)} |->
                      sc[CHOOSE i \in 1..Len(AbstractNames) : AbstractNames[i] = n]]
 RNOffsets == IF Tier = "quick" THEN {0, 7, 13, 25} ELSE {0, 3, 7, 13, 17, 21, 25, 31}
